@@ -7,7 +7,7 @@ import os
 import shutil
 import sys
 
-NAME = "verifstarter"
+NAME = "VerifStarter1"      # mixed case and a digit: any valid Python identifier is a valid scheduler name
 _done = False
 
 
